@@ -244,15 +244,39 @@ def run(ctx, rep):
                             ok, why = False, "the payload deserializer's Result is consumed by something other than a single `Result::map` (which leaves Err untouched): %s" % (atomics.callee_of(cons[1]) if cons else "several uses")
                         else:
                             mt = cons[1]
+                            # a chain of `map`s (each leaves Err untouched): `.map(Box::new).map(Arc::from)` - every step but one
+                            # re-wraps the value without touching a count (`Box::new`), exactly one builds the fresh sole owner
+                            chain = [mt]
+                            for _ in range(4):
+                                nxt = sole_consumer(b, chain[-1]["dest"]["l"]) if not chain[-1]["dest"]["p"] else None
+                                if nxt is not None and atomics.callee_of(nxt[1]) == "<core::result::Result<T, E>>::map" and nxt[2] == 0:
+                                    chain.append(nxt[1])
+                                else:
+                                    break
                             o = B.origin_local(0)
-                            if not (mt["dest"]["l"] == 0 or (o.get("kind") == "call" and o["term"] is mt)):
+                            if not (chain[-1]["dest"]["l"] == 0 or (o.get("kind") == "call" and o["term"] is chain[-1])):
                                 ok, why = False, "the mapped Result is not what is returned"
-                            ctor_ok = False
-                            for a in mt["resolved"]["args"]:
-                                if "t" in a:
-                                    tt = F.ty(a["t"])
-                                    if tt["k"] in ("fndef", "closure") and tt["def"] in F.bodies and c03.is_new_class(E, tt["def"]):
-                                        ctor_ok = True
+                            n_ctor, n_other = 0, 0
+                            from .. import implsel as _implsel
+
+                            for m_ in chain:
+                                step = None
+                                for a in m_["resolved"]["args"]:
+                                    if "t" in a:
+                                        tt = F.ty(a["t"])
+                                        if tt["k"] in ("fndef", "closure"):
+                                            k_ = tt["def"] if tt["def"] in F.bodies else (_implsel.fn_item(F, a["t"])[0] if tt["k"] == "fndef" else None)
+                                            if k_ in F.bodies and c03.is_new_class(E, k_):
+                                                step = "ctor"
+                                            elif tt["k"] == "fndef" and tt["def"] in ("alloc::boxed::Box::<T>::new", "<alloc::boxed::Box<T>>::new", "alloc::boxed::Box::new", "<alloc::boxed::Box<T, alloc::alloc::Global>>::new"):
+                                                step = "box"
+                                            elif step is None:
+                                                step = "other"
+                                if step == "ctor":
+                                    n_ctor += 1
+                                elif step != "box":
+                                    n_other += 1
+                            ctor_ok = n_ctor == 1 and n_other == 0
                             if not ctor_ok:
                                 ok, why = False, "the function mapped over Ok is not a constructor that builds one fresh block with count 1 and one owner"
                 vecs = [p.vec for p in A.paths[key] if p.exit == "ret"]
